@@ -8,6 +8,7 @@
   remainder computed through field operations strictly decreases (`stepVal_rem`); `exp` runs at most 64 iterations.
 -/
 import GoldilocksVerif.Lemmas.InvF
+import GoldilocksVerif.Lemmas.BridgeInv
 
 namespace GoldilocksVerif.C10
 open GoldilocksVerif Model
@@ -59,6 +60,62 @@ theorem C10_residue_independent (a a' b b' : BitVec 64) (ha : den a = den a') (h
     rw [← hb, ← ha] at hm'
     exact mul_right_cancel₀ hb0 (hm.trans hm'.symm)
   · intro e; rw [C10_exp, C10_exp, ha]
+
+/-! ## The same statements about the TRANSLATED functions
+
+  `Gen.InvGen.inv___rE / inv___eE / div__rEE / div__eEE / exp___rEE / exp___eEE` are regenerated from the C++ text of
+  `Goldilocks::inv / div / exp` on every run (extended mode of tools/tr_cxx.py: the Euclid `while` loop and the `for(;;)`
+  of `exp` become fuel-bounded folds over lifted loop bodies, `exit(-1)` becomes `none`).  `fuel` bounds the iterations of
+  each loop; the statements hold for EVERY fuel ≥ `invFuel` = 129 (inv, div) resp. ≥ `expFuel` = 64 (exp), and from
+  that fuel on `none` can only mean "the process was ended by the code".  Proofs: Lemmas/BridgeInv.lean. -/
+
+/-- the translated functions equal the hand models (so the hand models are no longer part of the trusted base of C10) -/
+theorem C10_generated_eq_model (fuel : Nat) (a b : BitVec 64) :
+    (invFuel ≤ fuel → Gen.InvGen.inv___rE fuel a = Model.inv a ∧ Gen.InvGen.inv___eE fuel a = Model.inv a ∧
+      Gen.InvGen.div__rEE fuel a b = Model.div a b ∧ Gen.InvGen.div__eEE fuel a b = Model.div a b) ∧
+    (expFuel ≤ fuel → Gen.InvGen.exp___rEE fuel a b = some (Model.exp a b) ∧
+      Gen.InvGen.exp___eEE fuel a b = some (Model.exp a b)) :=
+  ⟨fun hf => ⟨inv_r_gen_eq fuel hf a, inv_e_gen_eq fuel hf a, div_r_gen_eq fuel hf a b, div_e_gen_eq fuel hf a b⟩,
+   fun hf => ⟨exp_r_gen_eq fuel hf a b, exp_e_gen_eq fuel hf a b⟩⟩
+
+/-- translated inv: ends the process exactly on the zero class (for every fuel ≥ 129 it never runs out of fuel) -/
+theorem C10_generated_inv_refuses_zero (fuel : Nat) (hf : invFuel ≤ fuel) (a : BitVec 64) :
+    (Gen.InvGen.inv___rE fuel a = none ↔ den a = 0) ∧ (Gen.InvGen.inv___eE fuel a = none ↔ den a = 0) := by
+  rw [inv_r_gen_eq fuel hf, inv_e_gen_eq fuel hf]
+  exact ⟨C10_inv_refuses_zero a, C10_inv_refuses_zero a⟩
+
+/-- translated inv: canonical inverse of every operand not congruent to zero, in any representation -/
+theorem C10_generated_inv (fuel : Nat) (hf : invFuel ≤ fuel) (a : BitVec 64) (h : den a ≠ 0) :
+    ∃ r, Gen.InvGen.inv___rE fuel a = some r ∧ Gen.InvGen.inv___eE fuel a = some r ∧ den r * den a = 1 ∧ r.toNat < P := by
+  obtain ⟨r, hr, h1, h2⟩ := C10_inv a h
+  exact ⟨r, by rw [inv_r_gen_eq fuel hf, hr], by rw [inv_e_gen_eq fuel hf, hr], h1, h2⟩
+
+/-- translated div: div(a,b) · b = a for every divisor not congruent to zero -/
+theorem C10_generated_div (fuel : Nat) (hf : invFuel ≤ fuel) (a b : BitVec 64) (h : den b ≠ 0) :
+    ∃ r, Gen.InvGen.div__rEE fuel a b = some r ∧ Gen.InvGen.div__eEE fuel a b = some r ∧ den r * den b = den a := by
+  obtain ⟨r, hr, h1⟩ := C10_div a b h
+  exact ⟨r, by rw [div_r_gen_eq fuel hf, hr], by rw [div_e_gen_eq fuel hf, hr], h1⟩
+
+/-- translated exp: returns for every base and 64-bit exponent (fuel ≥ 64), and the result is b^e -/
+theorem C10_generated_exp (fuel : Nat) (hf : expFuel ≤ fuel) (b e : BitVec 64) :
+    ∃ r, Gen.InvGen.exp___rEE fuel b e = some r ∧ Gen.InvGen.exp___eEE fuel b e = some r ∧ den r = den b ^ e.toNat :=
+  ⟨Model.exp b e, exp_r_gen_eq fuel hf b e, exp_e_gen_eq fuel hf b e, C10_exp b e⟩
+
+/-- more fuel never changes a result: a result obtained with ANY fuel is the hand model's result -/
+theorem C10_generated_inv_any_fuel (fuel : Nat) (a r : BitVec 64) (h : Gen.InvGen.inv___eE fuel a = some r) :
+    Model.inv a = some r := by
+  rw [← inv_e_gen_eq (max fuel invFuel) (Nat.le_max_right _ _) a]
+  unfold Gen.InvGen.inv___eE at h ⊢
+  by_cases hz : Gen.Scalar.isZero a = true
+  · simp only [hz, if_true] at h; cases h
+  · simp only [hz, Bool.false_eq_true, if_false] at h ⊢
+    cases hw : Loop.whileM Gen.InvGen.inv___eE_loop1 fuel
+        (0#64, 0#64, 0#64, 0#64, 1#64, 18446744069414584321#64, Gen.Scalar.toU64__rE a) with
+    | none => rw [hw] at h; cases h
+    | some st =>
+      rw [hw] at h
+      rw [Loop.whileM_mono _ fuel _ st (max fuel invFuel) hw (Nat.le_max_left _ _)]
+      exact h
 
 /-- non-vacuity: non-canonical operands are covered (p + 3 denotes 3 ≠ 0) -/
 example : den 18446744069414584324#64 ≠ 0 := by
